@@ -21,6 +21,18 @@ def gen_cases(ctx):
                 cases.append((enc, 11, [d, n, s]))
                 cases.append((enc, 12, [d, n, s]))
                 cases.append((enc, 13, [d, n, rng.randint(0, 4), s]))
+        # the start is a DATETIME WITH A TIME OF DAY (the API type is NaiveDateTime): holiday lists hold midnights and the
+        # look-up is exact, so such a start sees the week mask alone and the time of day is carried through
+        # (Model/SubDay.v, Proofs/SubDayP.v); times around noon, the ends of the day and midnight itself
+        for d in dates[:4]:
+            for _ in range(2):
+                t = rng.choice([0, 1, 43199, 43200, 43201, 54000, 86399, rng.randint(1, 86399)])
+                n = rng.choice([0, 1, -1, 2, -2, calgen.gen_i8(rng)])
+                s = rng.randint(0, 1)
+                ctx.count("time of day " + ("midnight" if t == 0 else "morning" if t < 43200 else "afternoon"))
+                cases.append((enc, 41, [d, n, s, t]))
+                cases.append((enc, 42, [d, n, s, t]))
+                cases.append((enc, 43, [d, n, rng.randint(0, 4), s, t]))
         # the WHOLE i8 range (both flags; add_bus_days, lag, add_days) from two dates, hashed
         for d in dates[:3 if th else 1]:
             cases.append((enc, 32, [d, rng.randint(0, 4)]))
@@ -29,6 +41,18 @@ def gen_cases(ctx):
             a = rng.choice(dates)
             b = a + rng.choice([0, 1, 5, 30, 90, -3])
             cases.append((enc, 15, [a, b]))
+    # named calendars from datetimes with a time of day, around Christmas / New Year (business and settlement holidays)
+    for nm in ["tgt", "ldn,tgt|fed", "nyc|tgt"]:
+        for kind in (4, 5):
+            enc = calgen.enc_named(nm, kind)
+            d0 = calgen.dn(rng.randint(1990, 2150), 12, 20)
+            for d in range(d0, d0 + 14):
+                t = rng.choice([43200, 54000, 86399, 1, rng.randint(1, 86399)])
+                for n in (0, rng.choice([1, -1, 2, -2, 3])):
+                    s = rng.randint(0, 1)
+                    cases.append((enc, 41, [d, n, s, t]))
+                    cases.append((enc, 42, [d, n, s, t]))
+                    cases.append((enc, 43, [d, n, rng.randint(0, 4), s, t]))
     for nm in ["tgt", "ldn,tgt|fed", "nyc|tgt", "tyo", "all", "bus"]:
         enc = calgen.enc_named(nm)
         for _ in range(4 if th else 1):
@@ -57,7 +81,7 @@ def gen_cases(ctx):
 
 
 def nontrivial(enc, op, args, out):
-    if op in (11, 12, 13):
+    if op in (11, 12, 13, 41, 42, 43):
         return len(out) == 2 and out[0] == 0 and args[1] != 0
     return op in (32, 15)
 
@@ -66,17 +90,19 @@ def run(ctx):
     ctx.rule = ("calendars as in C04; start dates dense around holidays and month ends (business and non-business); day counts over "
                 "the whole i8 range weighted to 0, +-1, +-2, +-127, -128; both settlement flags; add_bus_days, lag, add_days (all "
                 "modifiers), bus_date_range incl. rejected ends; one hashed case = all 256 i8 values x 2 flags x 3 functions from a "
-                "date. Non-trivial = Ok result with n != 0, a full-i8 sweep or a range; distinct by (calendar, op, args).")
+                "date; the same three functions from DATETIMES WITH A TIME OF DAY (midnight, noon +-1s, 15:00, 23:59:59, random) on generated "
+                "and named calendars (ops 41-43, Model/SubDay.v). Non-trivial = Ok result with n != 0, a full-i8 sweep or a range; distinct by (calendar, op, args).")
     ctx.trusted = [
         "Coq 8.16.1 kernel; no axioms (all C05 theorems closed under the global context)",
         "hand-written model Model/Calendar.v tied to the code by this run's correspondence (harness/src/cal.rs, driver/calrun.py)",
         "chrono date arithmetic modelled by Model/Dates.v (C08 check); named tables regenerated by driver/translate.py",
+        "sub-day datetimes: Model/SubDay.v assumes holiday lists hold midnights (as every table and harness route builds them) and that adding whole days keeps the time of day (chrono); both are exercised by ops 41-43 of this run",
     ]
     ctx.assumptions = ["day counts are i8 values (-128..127), as the API type enforces",
                        "searches bounded by 7*(holidays+1) days in the executed model; exhaustion = abort"]
     if translate_stage(ctx) is None:
         return ctx.finish("make theories/Props/C05.vo")
-    if not proof_stage(ctx, ["theories/Run/RunCal.vo"]):
+    if not proof_stage(ctx, ["theories/Run/RunCal.vo", "theories/Proofs/SubDayP.vo"]):
         ctx.violation("a C05 proof obligation or the model no longer compiles", {"no_failing_input": True, "theorem": "Props/C05.v / Run/RunCal.v", "log_tail": getattr(ctx, "build_log", "")[-3000:]})
         return ctx.finish("make theories/Props/C05.vo")
     if not harness_stage(ctx):
